@@ -451,6 +451,10 @@ fn compile_spans(text: &str, loc: &Locator) -> Compiled {
                     ));
                 }
             }
+            // Evaluation errors are diagnostics too (annotation YAML, literals, ...).
+            if let Ok(Err(e)) = crate::explore::guard(|| oal_compiler::eval::eval(&mods)) {
+                spans.push((format!("evaluation error `{e}`"), e.span().map(|s| flat(s, loc))));
+            }
             Compiled {
                 error: None,
                 spans,
@@ -900,7 +904,7 @@ impl Engine for C11 {
     fn assumptions(&self) -> Vec<String> {
         vec![
             "spans of imported modules are not reached: the in-memory loader serves the single module main.oal (imports fail with a located compile error, which is checked)".into(),
-            "evaluation errors (oal_compiler::eval) are outside this check; they are exercised by C04 through oal_wasm::compile".into(),
+            "a panic of the evaluator is C01's / C04's business; only the span of an evaluation *error* is checked here".into(),
         ]
     }
 }
